@@ -213,3 +213,7 @@ def run(ctx: Ctx):
                     ctx.nontrivial((str(x["r"]["poly"]), x["r"].get("e", 0), j))
     ctx.cov["traces_validated_against_impl"] += npairs
     ctx.sample({"poly": recs[0]["r"].get("poly"), "t": recs[0]["r"]["t"], "q": recs[0]["r"]["q"][:4]})
+    # ---- code -> spec: recorded calls on larger coordinates, validated by TLC against Trace_Ops.tla
+    from ..optrace import run_optrace
+
+    run_optrace(ctx, ['seg_contains', 'poly_contains2', 'poly_contains3'])
